@@ -36,7 +36,14 @@ RULE = (
     "sorted / filtered / get_columns / with_new_column / take_dists / drop_invalid; annotation dbs (Basic / Gff / Genbank) after "
     "add / update / union / subset; likelihood functions (continuous and discrete models, rate bins, multiple loci with unsorted "
     "names) after scoped parameter rules, motif-prob setting and a short optimisation; app results (generic, model, split-codon model, "
-    "hypothesis, bootstrap, tabular) and NotCompleted with nested sources. Alphabets, moltypes, genetic codes and every registered "
+    "hypothesis, model collection, bootstrap, tabular) and NotCompleted with nested sources; codon (GY94, CNFGTR, MG94GTR) and empirical protein (JTT92, WG01, "
+    "DSO78, AH96, optionally gamma rate bins) likelihood functions with the same histories (sub-check lf_families); profile arrays (MotifCountsArray, "
+    "MotifFreqsArray, PSSM) obtained from alignments (counts_per_pos / counts_per_seq / probs_per_pos / probs_per_seq / to_freq_array / to_pssm / motif_totals, "
+    "motif length 1-3, gaps / ambiguity included or not) or built directly (string / int / default row keys, 1-D and 2-D, background, pseudocount, log-odds "
+    "given as such) after take (rows, motifs, negate) / row indexing / row slicing, alone and as a tabular_result member, plus 1-3 dimensional DictArrays with "
+    "string / range / arbitrary int keys and DistanceMatrix, all additionally through copy.copy and copy.deepcopy: the copy must be of the same class with "
+    "equal names, array, dtype kind, shape, to_dict, motifs and equal results of derived methods (to_freq_array, to_pssm, motif_totals, entropy, "
+    "relative_entropy, information, pairwise_jsd, score_seq, str) (sub-check profile). Alphabets, moltypes, genetic codes and every registered "
     "substitution model (plus keyword variants and user defined predicate models) are enumerated. Each object is observed, sent "
     "through to_json -> deserialise_object, to_rich_dict -> deserialise_object and pickle, and observed again; observations must be "
     "equal (floats of likelihood functions within 1e-9 relative). Registry keys without a generator are reported as classes "
@@ -59,6 +66,15 @@ ASSUMPTIONS = [
     "discrete-time models (BH, DT) get gap free alignments and are not optimised: get_param_rules deliberately lifts probabilities below 1e-6 (adjusted_gt_minprob), so states with probability parameters on the boundary are outside the exact round-trip domain; codon alignments contain sense codons only",
     "likelihood functions embedded in app results avoid the free rate distribution (reported under lf/bins-free)",
     "with_gap_motif() of a deserialised old-style alphabet is not compared (the moltype's own alphabets are pre-linked to their gapped partners)",
+    "profile arrays: tabular_result names MotifCounts / MotifFreqs / PSSM among its item types (matched against the 'type' of stored rich dicts), so the class is part of what must survive JSON / rich dict; "
+    "derived methods are only compared on copies of the right class (a lost class is reported once, as <route>/class) and only where they work on the original; producing calls that refuse the input "
+    "(all-zero data 'Must provide data', counts_per_seq returning None, frequency rows that no longer sum to 1 after a motif selection, PSSM re-interpreting all-positive scores) end the case or skip the "
+    "history step; NaN rows of frequency arrays (0/0, by design) equal NaN; the private PSSM background is not compared; MotifCountsArray.row_totals() raises NotImplementedError on every array and is not used; "
+    "protein profiles use motif length 1 (word alphabets of 400 / 8000 members)",
+    "copy.copy / copy.deepcopy are treated as serialisation routes of profile arrays, DictArray and DistanceMatrix (they use the pickle protocol); names that are numpy.str_ (a str) compare equal to str",
+    "codon likelihood functions of lf_families are sent through JSON and pickle only (the rich-dict route is the JSON route without the text encoding; each copy rebuilds the codon model, 1-3 s); "
+    "codon alignments consist of sense codons and whole-codon gaps; substitution model instances of lf_families are built once per process and shared (a likelihood function does not modify its model); "
+    "H04G / H04GK / H04GGK are not used there (known finding: aliased predicates)",
 ]
 
 ROUTES = ("json", "rich_dict", "pickle")
@@ -1131,14 +1147,14 @@ def _profile_base_obs():
 
 def _profile_typed_obs(clsname, ndim):
     """observers that need the profile class (derived methods); only used on copies of the right class"""
-    obs = [("motifs", lambda o: list(o.motifs)), ("motif_length", lambda o: o.motif_length), ("str", str),
-           ("take-motifs", lambda o: _sub_profile(o.take(list(o.motifs)[:2], axis=1)))]
-    if ndim == 2:
+    obs = [("motifs", lambda o: list(o.motifs)), ("motif_length", lambda o: o.motif_length), ("str", str)]
+    if ndim == 2 and clsname != "PSSM":  # a PSSM is two dimensional by construction
         obs.append(("row0", lambda o: _sub_profile(o[o.template.names[0][0]])))
     if clsname == "MotifCountsArray":
-        obs += [("motif_totals", lambda o: _sub_profile(o.motif_totals())), ("to_freq_array", lambda o: _sub_profile(o.to_freq_array(pseudocount=1)))]
+        # (row_totals() is not used: it raises NotImplementedError on every array)
+        obs += [("take-motifs", lambda o: _sub_profile(o.take(list(o.motifs)[:2], axis=1))), ("to_freq_array", lambda o: _sub_profile(o.to_freq_array(pseudocount=1)))]
         if ndim == 2:
-            obs += [("row_totals", lambda o: o.row_totals().array), ("to_pssm", lambda o: _sub_profile(o.to_pssm(pseudocount=1)))]
+            obs += [("motif_totals", lambda o: _sub_profile(o.motif_totals())), ("to_pssm", lambda o: _sub_profile(o.to_pssm(pseudocount=1)))]
     elif clsname == "MotifFreqsArray" and ndim == 2:
         obs += [("entropy", lambda o: o.entropy()), ("entropy_terms", lambda o: o.entropy_terms().array), ("relative_entropy", lambda o: o.relative_entropy()),
                 ("information", lambda o: o.information()), ("pairwise_jsd", lambda o: o.pairwise_jsd()), ("to_pssm", lambda o: _sub_profile(o.to_pssm()))]
@@ -1894,7 +1910,7 @@ def lf_spec(draw, allow_loci=True, max_ops=4):
 
 
 # model families other than nucleotide: codon and empirical protein models (GN / ssGN are in LF_MODELS)
-LF_FAMILIES = {"codon": ["GY94", "Y98", "CNFGTR", "MG94GTR"], "protein": ["JTT92", "WG01", "DSO78", "AH96"]}
+LF_FAMILIES = {"codon": ["GY94", "CNFGTR", "MG94GTR"], "protein": ["JTT92", "WG01", "DSO78", "AH96"]}
 SENSE_CODONS = [a + b + c for a in "TCAG" for b in "TCAG" for c in "TCAG" if a + b + c not in ("TAA", "TAG", "TGA")]
 AMINO_ACIDS = "ACDEFGHIKLMNPQRSTVWY"
 _FAMILY_MODEL_CACHE = {}
@@ -1903,7 +1919,7 @@ _FAMILY_MODEL_CACHE = {}
 @st.composite
 def lf_family_spec(draw):
     """a codon or protein likelihood function on three or four tips; same history operations as lf_spec"""
-    family = draw(st.sampled_from(["codon", "protein", "protein"]))
+    family = draw(st.sampled_from(["codon", "protein", "protein", "protein"]))  # each copy of a codon function rebuilds the model (1-3 s)
     model = draw(st.sampled_from(LF_FAMILIES[family]))
     variant = "bins" if family == "protein" and draw(st.integers(0, 3)) == 0 else "plain"
     ntips = draw(st.integers(3, 4))
@@ -2108,6 +2124,16 @@ def exec_lf(case) -> Soft:
         return s
     label = lf_label(case)
     sig = "lf/" + label
+    if case.get("family"):
+        # rebuilding a codon model takes about a second: one copy per route, and the rich-dict route (the JSON route without the
+        # text encoding) is left to the cheaper families
+        routes = ("json", "pickle") if case["family"] == "codon" else ROUTES
+        round_trips(s, sig, lf, observers, f"{case}", routes=routes, want=want, **LF_TOL)
+        s.cls("family:" + case["family"], "model:" + case["model"], "variant:" + case["variant"], *sorted(flags))
+        if case["name"]:
+            s.cls("named")
+        s.nontrivial = nhist >= 1
+        return s
     # the name is lost for one reason whatever the variant: one signature per route
     name_obs = [o for o in observers if o[0] == "name"]
     rest = [o for o in observers if o[0] != "name"]
@@ -2464,7 +2490,7 @@ KNOWN_PREDICATES = {}
 
 META = {
     "technique": "Hypothesis-generated objects and pre-serialisation histories; round trip through JSON, rich dict and pickle with type specific observational equality (plus a string model for sequences and collections)",
-    "level_text": "Per run a few thousand generated objects of the registered serialisable types are brought into a non-fresh state (sliced, strided, reverse complemented, annotated, re-rooted, re-scoped, optimised), observed through harness-written observers, serialised through every route and observed again; alphabets, moltypes, genetic codes and all registered substitution models are enumerated.",
+    "level_text": "Per run several thousand generated objects of the registered serialisable types (and of the profile array classes that app results name as members) are brought into a non-fresh state (sliced, strided, reverse complemented, annotated, re-rooted, re-scoped, optimised), observed through harness-written observers, serialised through every route and observed again; alphabets, moltypes, genetic codes and all registered substitution models are enumerated.",
     "level_note": "Round-trip oracle: trusts the observers (strings, coordinates, features, parameter tables, lnL) to expose differences; registry keys without a generator are listed as uncovered classes.",
     "design_ref": "DESIGN.md section 1, C10",
 }
